@@ -19,7 +19,7 @@ UNITS['prx2'] = dict(SER, cxxflags=['-D__TBB_BUILD=1', '-DVP_PROXY=1'], threads=
 UNITS['prx3'] = dict(SER, cxxflags=['-D__TBB_BUILD=1', '-DVP_PROXY=1'], threads={'vp_thr_proxy': ['a', 'b', 'c']})
 UNITS['arena2'] = dict(wrapper='w_arena.cpp', mode='lcs', unroll=1, exceptions=True, prune=True, cut=['timed_spin_wait_until'], pure=['get_waiting_threads_monitor'], cxxflags=['-D__TBB_BUILD=1', '-mrtm', '-mwaitpkg'],
                        threads={'vp_thr_spawner': ['a'], 'vp_thr_idle': ['b']})
-EXEC = dict(wrapper='w_exec.cpp', mode='lcs', unroll=1, exceptions=True, prune=True, devirt=True, cut=['timed_spin_wait_until', 'enqueue_task'], pure=['pthread_getspecific'], ptrhooks=True,
+EXEC = dict(wrapper='w_exec.cpp', mode='lcs', unroll=1, exceptions=True, prune=True, devirt=['sleep_node', 'vp_delegate'], cut=['timed_spin_wait_until', 'enqueue_task'], pure=['pthread_getspecific'], ptrhooks=True,
             noinline=['concurrent_monitor_baseImE12prepare_wait', 'concurrent_monitor_baseImE11cancel_wait', 'concurrent_monitor_baseImE18notify_one_relaxed'],
             cxxflags=['-D__TBB_BUILD=1', '-mrtm', '-mwaitpkg'],
             # destructors that stay out-of-line only on the exceptional clean-up paths (landing pads) of task_arena_impl::execute; no stub throws, so those
